@@ -323,6 +323,8 @@ def serialize_then_deserialize(chk, eng, st, value, label, expect_reject=False, 
 
 
 def run(chk):
+    from .common import per_instance_state_of_modules
+    per_instance_state_of_modules(chk, "C15.classes.state_is_per_instance", ['serdes'])   # no object created in a class body: instances share no mutable state through the class
     chk.assume("S: json.loads(json.dumps(x)) maps dict/list/str/int/float/bool/None structures to equal ones (tuples become lists, non-string keys become their JSON text, StrEnum members their string); the text is never empty")
     chk.assume("S: base64, str/uuid.UUID, str/Decimal, datetime/date isoformat/fromisoformat are inverse pairs; isoformat() never ends in 'Z'")
     chk.assume("A: floats are reals: NaN/inf and float rounding are outside the model (json accepts non-finite floats by default)")
@@ -347,6 +349,7 @@ def run(chk):
         for k_ in eng.stats:
             chk.engine_stats[k_] = chk.engine_stats.get(k_, 0) + eng.stats[k_]
     containers(chk)
+    serialized_text_is_ascii(chk, "C15", want=("flags",))   # precondition of assumption S at every json.dumps call
     dispatch_exactness(chk)
     from . import c20
     c20.strict_error_roundtrip(chk, "C15")   # the error objects inside a batch result go through ErrorObject.to_dict / from_dict: exact, '' is not None
@@ -556,7 +559,7 @@ def json_short(o):
     return json.dumps(o)[:600]
 
 
-def serialized_text_is_ascii(chk, prefix="C16"):
+def serialized_text_is_ascii(chk, prefix="C16", want=("ascii",)):
     """operation/child.py compares len(serialized_result) - a CHARACTER count - with the 256 KB checkpoint limit.  That is the UTF-8 size only if the
     text is pure ASCII, which json.dumps guarantees with its default ensure_ascii=True: every json.dumps call of the default serializer keeps it"""
     for label, mk in (("str", lambda e, s, h: fresh("str", "v")), ("list", lambda e, s, h: s.alloc("list", {"__kind__": "glist", "len": z3.Int("n_items"), "elem": new_child(e, s, "c")}))):
@@ -577,6 +580,39 @@ def serialized_text_is_ascii(chk, prefix="C16"):
             flags = [s.ghost.get("dumps", {}).get(e.text.t.get_id(), (None, {}))[1] for e in dumps]
             ok = bool(dumps) and all(f.get("ensure_ascii", True) is True for f in flags)
             n += 1
-            chk.prove(f"{prefix}.serdes.ascii_text.{label}", s.pc, z3.BoolVal(ok),
-                      desc="every json.dumps call of the default serializer keeps ensure_ascii=True: the serialized text is pure ASCII, so its length in characters (what the 256 KB test measures) is its size in bytes")
+            if "ascii" in want:
+                chk.prove(f"{prefix}.serdes.ascii_text.{label}", s.pc, z3.BoolVal(ok),
+                          desc="every json.dumps call of the default serializer keeps ensure_ascii=True: the serialized text is pure ASCII, so its length in characters (what the 256 KB test measures) is its size in bytes")
+            if "flags" in want:
+                odd = sorted({f"{k_}={_flag_text(v_)}" for f in flags for k_, v_ in f.items() if not _flag_keeps_structure(k_, v_)})
+                chk.prove(f"{prefix}.serdes.json_flags_keep_structure.{label}", s.pc, z3.BoolVal(bool(dumps) and not odd),
+                          desc="precondition of assumption S, checked at every json.dumps call of the default serializer: only flags that change white space or escaping are passed (separators ',' ':' with optional blanks, "
+                               "ensure_ascii, indent); sort_keys reorders dictionaries (the replayed value then iterates in another order than the one first delivered), default / cls / skipkeys change what is written"
+                               + (f"; flags outside the assumption: {odd}" if odd else ""),
+                          describe=lambda m: {"values": "dictionaries whose keys are not in sorted order, nested in a tuple so that the envelope path is taken"}, replay=_replay_dict_order,
+                          sample="flags of json.dumps on every path of ExtendedTypeSerDes.serialize")
         chk.paths += n
+
+
+def _flag_text(v):
+    return repr(v) if isinstance(v, (bool, int, str, tuple, type(None))) else type(v).__name__
+
+
+def _flag_keeps_structure(k, v):
+    if k == "separators":
+        return isinstance(v, tuple) and len(v) == 2 and all(isinstance(x, str) for x in v) and v[0].strip(" ") == "," and v[1].strip(" ") == ":"
+    if k == "ensure_ascii":
+        return isinstance(v, bool)
+    if k == "indent":
+        return v is None or isinstance(v, int)
+    if k in ("sort_keys", "skipkeys"):
+        return v is False
+    if k in ("default", "cls"):
+        return v is None
+    return k in ("check_circular", "allow_nan") and isinstance(v, bool)
+
+
+def _replay_dict_order(inputs):
+    from pyvc.check import native
+    r_ = native("dict_order_replay.py", {})
+    return bool(r_.get("confirmed")), r_
